@@ -278,7 +278,7 @@ def _audit_foreign(path, algo):
 
 
 def run(ctx):
-    run_trace_machine(ctx, C01Machine, ctx.n(quick=40, thorough=1500), 12)
+    run_trace_machine(ctx, C01Machine, ctx.n(quick=80, thorough=1500), 12)
 
 
 def replay(case, ctx):
